@@ -15,7 +15,7 @@ for f in $DEMO SEEDED.md; do [ -f $f ] && cp $f $OUT/; done
 echo "== changed: $CHANGED" | tee $OUT/confirm.log
 ( go build ./... && go vet . ) >> $OUT/confirm.log 2>&1; echo "build+vet rc=$?" | tee -a $OUT/confirm.log
 RUNDEMO="go test -count=1 -run Seeded -timeout 10m ."
-[ -d seeded_demo ] && RUNDEMO="go run ./seeded_demo"
+[ -z "$DEMO" ] && [ -d seeded_demo ] && RUNDEMO="go run ./seeded_demo"
 ( $RUNDEMO ) > $OUT/demo_with.log 2>&1; W=$?; echo "demo WITH change rc=$W (expect non-zero)" | tee -a $OUT/confirm.log
 git apply -R $OUT/patch.diff
 ( $RUNDEMO ) > $OUT/demo_without.log 2>&1; WO=$?; echo "demo WITHOUT change rc=$WO (expect 0)" | tee -a $OUT/confirm.log
